@@ -1,4 +1,5 @@
 import Hls.Proofs.MediaRT
+import Hls.Proofs.WrittenRT
 /-!
 # C03 — a media playlist survives serialise → parse
 
@@ -63,6 +64,22 @@ theorem media_fixed_point (e : Option Nat) (s : Str) (p p' : MediaPlaylist) (tex
   obtain ⟨text2, t1, t2⟩ := media_roundtrip e s p h hk2 hrt
   rw [ht] at t1; cases t1
   rw [t2] at h'; cases h'; rfl
+
+/-- **text round trip from conditions on the value**: the abstract `LineRT` hypothesis of
+`media_roundtrip` is discharged line kind by line kind (`written_lines_rt`) for every value in `MediaWF`:
+integers below 2^64, quotable strings, well-formed ranges and keys. What `MediaWF` still takes as given is
+named there: the decimal-seconds round trip of each EXTINF duration (a fact about Rust's float formatting:
+FL2 in the trusted base), and the line-level round trip of EXT-X-START, EXT-X-DATERANGE, of URI lines
+and of unknown tags (written verbatim). -/
+theorem media_roundtrip_wf (e : Option Nat) (s : Str) (p : MediaPlaylist)
+    (h : parseMediaWith (bE e) s = .ok p) (hk2 : NoK2 p) (wf : MediaWF p) :
+    ∃ text, p.show = .ok text ∧ parseMediaWith (bE e) text = .ok p :=
+  media_roundtrip e s p h hk2 (written_lines_rt p wf)
+
+theorem media_fixed_point_wf (e : Option Nat) (s : Str) (p p' : MediaPlaylist) (text : Str)
+    (h : parseMediaWith (bE e) s = .ok p) (hk2 : NoK2 p) (wf : MediaWF p)
+    (ht : p.show = .ok text) (h' : parseMediaWith (bE e) text = .ok p') : p'.show = p.show :=
+  media_fixed_point e s p p' text h hk2 (written_lines_rt p wf) ht h'
 
 /-- the former finding K3 (`KEY a, KEY b(f), segment, KEY NONE, KEY a, segment`): since the `fix:`
 that makes the writer print the reset, it round-trips -/
